@@ -80,6 +80,12 @@ def bait_cfgs():
     out.append(mk({"tx": tx, "mid": {"constructor": "MakeC", "arguments": ["@tx"], "getter": "GetMid", "type": "*T"},
                    "repo": {"constructor": "NewA", "scope": "shared", "arguments": ["@mid"], "getter": "GetRepo", "type": "*T"}}))
     out.append(mk({"tx": tx, "repo": {"constructor": "NewA", "scope": "shared", "fields": {"Dep": "@tx"}, "getter": "GetRepo", "type": "*T"}}))
+    # a parameter / a tag named like the contextual service, referenced just before it
+    nm = mk({"tx": tx, "repo": {"constructor": "NewA", "scope": "shared", "arguments": ["%tx%", "@tx"], "getter": "GetRepo", "type": "*T"}})
+    nm["parameters"]["tx"] = "plain"
+    out.append(nm)
+    out.append(mk({"tx": tx, "other": {"constructor": "MakeC", "tags": ["tx"], "getter": "GetOther", "type": "*T"},
+                   "repo": {"constructor": "NewA", "scope": "shared", "arguments": ["!tagged tx", "@tx"], "getter": "GetRepo", "type": "*T"}}))
     out.append(mk({"tx": tx, "repo": {"constructor": "NewA", "scope": "shared", "calls": [["SetX", ["@tx"]]], "getter": "GetRepo", "type": "*T"}}))
     return out
 
